@@ -1312,6 +1312,7 @@ func genC09(g *G, sc *Scenario, tier string) {
 		return Op{K: "advance", N: ms}
 	}
 	withJob := g.P(0.4)
+	jobByCron := false
 	if withJob {
 		var js []Ent
 		for _, id := range c.Pool[:g.Range(1, len(c.Pool))] {
@@ -1319,6 +1320,13 @@ func genC09(g *G, sc *Scenario, tier string) {
 		}
 		sc.Ops = append(sc.Ops, Op{K: "batch", DS: "jsrc", Ents: js})
 		cfg := jobConfig("syncjob", map[string]any{"Type": "DatasetSource", "Name": "jsrc"}, map[string]any{"Type": "DatasetSink", "Name": "ds"}, nil, "fullsync", g.Range(1, 3))
+		jobByCron = g.P(0.4)
+		if jobByCron {
+			// the job also runs through its cron trigger, where a capped log handler applies
+			cfg["paused"] = false
+			cfg["triggers"] = []any{map[string]any{"triggerType": "cron", "jobType": "fullsync", "schedule": "@every 3h",
+				"onError": []any{map[string]any{"errorHandler": "log", "maxItems": float64(g.Range(1, 2))}}}}
+		}
 		sc.Ops = append(sc.Ops, Op{K: "addJob", M: cfg})
 	}
 	// some initial content
@@ -1350,7 +1358,11 @@ func genC09(g *G, sc *Scenario, tier string) {
 			if g.P(0.1) {
 				eid = "foreign"
 			}
-			ops = append(ops, Op{K: "post", DS: "ds", Ents: ents(), M: map[string]any{"id": eid, "end": true}})
+			endOp := Op{K: "post", DS: "ds", Ents: ents(), M: map[string]any{"id": eid, "end": true}}
+			if g.P(0.35) {
+				endOp.M["scanJumpAt"], endOp.M["scanJumpMs"] = g.Range(1, 3), lease*1000+g.PickInt([]int{1, 5000})
+			}
+			ops = append(ops, endOp)
 		}
 		return ops
 	}
@@ -1359,7 +1371,13 @@ func genC09(g *G, sc *Scenario, tier string) {
 		switch {
 		case withJob && x < 0.4:
 			op := Op{K: "jobsync", S: "syncjob"}
-			if g.P(0.7) {
+			if g.P(0.3) {
+				// the job's sync is abandoned half way: its sink fails, or refuses entities until the handler gives up
+				op.M = map[string]any{"sinkFailAt": g.Range(1, 3)}
+				if jobByCron && g.P(0.7) {
+					op.M = map[string]any{"cron": true, "rejectSuffix": fmt.Sprintf("e%d", g.Intn(3))}
+				}
+			} else if g.P(0.7) {
 				// another client acts while the job's sync is running
 				var inner []Op
 				switch g.Intn(4) {
